@@ -229,6 +229,26 @@ def check_c13(run, an):
     return True
 
 
+def check_clients_after_exit(run, an):
+    """C19, receiver side of the bundled client and the PlayerThreads: once the table manager's
+    process has exited (abort) its connections are closed; every reader on them must stop with an
+    error -- neither spin on end-of-stream nor stay blocked."""
+    sim = run.sim
+    if 'server' not in sim.proc_exited:
+        return
+    for t in sim.threads:
+        if not (t.role.startswith('client:') or t.role.startswith('req:') or
+                t.role.startswith('fill:')):
+            continue
+        if t.spin:
+            an.add('C19', 'eof-spin', f'{t.role} read end-of-stream {sim.spin_limit}+ times in a '
+                                      f'row after the table manager had gone instead of stopping '
+                                      f'with an error', key='eof-spin')
+        elif not t.finished and t.op in ('recv.wait',):
+            an.add('C19', 'eof-block', f'{t.role} still waits on a connection whose peer process '
+                                       f'has exited', key='eof-block')
+
+
 def evaluate(run, props):
     eval_props = tuple(p for p in props if p in ('C10', 'C12', 'C19'))
     an = so.analyse(run)
@@ -238,6 +258,7 @@ def evaluate(run, props):
         so.check_c12(an)
     if 'C19' in eval_props:
         so.check_c19a(an)
+        check_clients_after_exit(run, an)
     aborted = check_c13(run, an) if 'C13' in props else (run.server_exc is not None)
     return an, aborted
 
